@@ -35,6 +35,29 @@ type Case struct {
 	Op   string `json:"op"`   // intersection | union | difference
 	Muts []Mut  `json:"muts"`
 	Hi   int    `json:"hi,omitempty"` // values are drawn from 0..Hi (0 = the default 0..9)
+	// operands with a past: before A/B are added the set held APre/BPre other
+	// elements and was emptied again — by Clear() (How "clear") or by removing them
+	APreN int    `json:"apre,omitempty"`
+	BPreN int    `json:"bpre,omitempty"`
+	AHow  string `json:"ahow,omitempty"`
+	BHow  string `json:"bhow,omitempty"`
+}
+
+// past fills the set with n throw-away elements and empties it again.
+func past[S algebra[S]](s S, n int, how string) {
+	if n <= 0 {
+		return
+	}
+	xs := make([]int, n)
+	for i := range xs {
+		xs[i] = 100000 + i
+	}
+	s.Add(xs...)
+	if how == "remove" {
+		s.Remove(xs...)
+	} else {
+		s.Clear()
+	}
 }
 
 type algebra[S any] interface {
@@ -80,13 +103,19 @@ func members(m map[int]bool) []int {
 func run[S algebra[S]](c Case, mk func() S, ordered bool) (pbt.Info, error) {
 	var info pbt.Info
 	a := mk()
-	a.Add(c.A...)
-	a.Remove(c.ARem...)
+	past(a, c.APreN, c.AHow)
+	if len(c.A) > 0 { // (an emptied operand is left exactly as Clear/Remove left it)
+		a.Add(c.A...)
+		a.Remove(c.ARem...)
+	}
 	b := a
 	if !c.Same {
 		b = mk()
-		b.Add(c.B...)
-		b.Remove(c.BRem...)
+		past(b, c.BPreN, c.BHow)
+		if len(c.B) > 0 {
+			b.Add(c.B...)
+			b.Remove(c.BRem...)
+		}
 	}
 	cl := func(x int) int { return class(c.Cmp, x) }
 	ma, mb := map[int]bool{}, map[int]bool{}
@@ -343,6 +372,21 @@ func gen(kind string) func(t *rapid.T) Case {
 			c.B, c.BRem = vals("b", maxB), vals("brem", 3)
 		}
 		c.Op = []string{"intersection", "union", "difference"}[rapid.IntRange(0, 2).Draw(t, "op")]
+		if rapid.IntRange(0, 5).Draw(t, "past") == 0 {
+			sizes := []int{1, 9, 70, 129, 300, 1100}
+			c.APreN, c.AHow = sizes[rapid.IntRange(0, 5).Draw(t, "apre")], []string{"clear", "remove"}[rapid.IntRange(0, 1).Draw(t, "ahow")]
+			if !c.Same && rapid.Bool().Draw(t, "bpast") {
+				c.BPreN, c.BHow = sizes[rapid.IntRange(0, 5).Draw(t, "bpre")], []string{"clear", "remove"}[rapid.IntRange(0, 1).Draw(t, "bhow")]
+			}
+			switch rapid.IntRange(0, 5).Draw(t, "empty-after") {
+			case 0, 1:
+				c.A, c.ARem = nil, nil // the operand is still empty after its past
+			case 2:
+				if c.BPreN > 0 {
+					c.B, c.BRem = nil, nil
+				}
+			}
+		}
 		n := rapid.IntRange(0, 6).Draw(t, "nmut")
 		for i := 0; i < n; i++ {
 			c.Muts = append(c.Muts, Mut{
